@@ -1117,4 +1117,35 @@ example : (((RM.run (RM.init .doTake) evictDemo1).bind fun s => RM.evict s 2).bi
     (fun s => (s.rets.map fun r => (r.tid, r.key, r.val), s.res 2, s.ncreate 2, (s.calls 2).isNone))
     = some ([(1, 2, 11), (0, 2, 9)], some 11, 1, true) := by decide
 
+
+/-! ### Round 5c: a loader that returns `(nil, nil)` — what the code does (`RM.nilInst`)
+
+The nil instance is stored and shared like any instance (so every `rm_*` theorem covers it: one load, everyone "gets"
+it); users that assert the type after the flight (`Cfg.asrt`: `GetResource`, `doTake`) panic instead of returning it —
+leader, joiners and, because the key now holds it, every later caller: the key is poisoned; `collection.Cache.Take`
+hands `(nil, nil)` to everyone. -/
+
+theorem rm_nil_leader_panics (s : RM.St) (t : Tid) (x : Nat) (hpc : s.pc t = .r0) (hv : s.cval (s.reg t) = RM.nilInst)
+    (ha : s.cfg.asrt = true) : (RM.step s t x).map (fun s' => (s'.pc t, s'.rets)) = some (.idle, s.rets) := by
+  unfold RM.step; rw [hpc]; simp [hv, ha, upd]
+
+theorem rm_nil_joiner_panics (s : RM.St) (t : Tid) (x : Nat) (hpc : s.pc t = .w2) (hv : s.cval (s.reg t) = RM.nilInst)
+    (ha : s.cfg.asrt = true) : (RM.step s t x).map (fun s' => (s'.pc t, s'.rets)) = some (.idle, s.rets) := by
+  unfold RM.step; rw [hpc]; simp [hv, ha, upd]
+
+theorem rm_nil_returned_without_assertion (s : RM.St) (t : Tid) (x : Nat) (hpc : s.pc t = .r0)
+    (hv : s.cval (s.reg t) = RM.nilInst) (ha : s.cfg.asrt = false) :
+    ((RM.step s t x).bind (·.rets.head?)).map (·.val) = some RM.nilInst := by
+  unfold RM.step; rw [hpc]; simp [hv, ha]
+
+/-- the poisoned key (`GetResource`): goroutine 0's `create` returns `(nil, nil)` — it is stored, goroutine 0 panics;
+goroutine 1 comes later, finds the nil instance in the map and panics, too: nobody ever returns. -/
+example : (RM.run (RM.init .getResource) ([(0,2)] ++ List.replicate 11 (0,0) ++ [(0,1)] ++ List.replicate 9 (0,0) ++
+    [(1,2)] ++ List.replicate 16 (1,0))).map (fun s => (s.rets.length, s.res 2, s.ncreate 2, s.pc 0, s.pc 1))
+    = some (0, some 1, 1, .idle, .idle) := by decide
+/-- `collection.Cache.Take`: the same schedule hands the nil value to both. -/
+example : (RM.run (RM.init .cacheTake) ([(0,2)] ++ List.replicate 15 (0,0) ++ [(0,1)] ++ List.replicate 9 (0,0) ++
+    [(1,2)] ++ List.replicate 4 (1,0))).map (fun s => (s.rets.map fun r => (r.tid, r.val, r.direct), s.res 2))
+    = some ([(1, 1, true), (0, 1, false)], some 1) := by decide
+
 end GoZero.C07
